@@ -15,6 +15,7 @@ type jsKey struct {
 	iso  *v8.Isolate
 	ctx  *v8.Context
 	uses int
+	gens int // contexts created on this isolate
 }
 
 const prelude = `var __r = []; function Rec(){ __r.push(Array.prototype.slice.call(arguments)); }
@@ -29,6 +30,14 @@ func newJSKey() *jsKey {
 func (k *jsKey) fresh() {
 	if k.ctx != nil {
 		k.ctx.Close()
+	}
+	// a tree that breaks the property makes most evaluations fail, each of which replaces the context; an isolate that
+	// has seen many contexts is replaced as well so that its heap cannot grow without bound
+	k.gens++
+	if k.gens > 100 {
+		k.iso.Dispose()
+		k.iso = v8.NewIsolate()
+		k.gens = 0
 	}
 	k.ctx = v8.NewContext(k.iso)
 	k.uses = 0
